@@ -146,6 +146,8 @@ func (f *timersFam) finish(w *World, res *Result) {
 	ts := f.sc.Timers
 	endT := simEnd(w)
 	tieOps := false // some Refresh/Stop was issued at exactly a due instant
+	anyRefreshAfterCancel := false
+	concurrentRefresh := false // two Refresh calls of one timer overlapped
 	for i, sp := range ts.Timers {
 		kind := "timeout"
 		if sp.Interval {
@@ -186,6 +188,9 @@ func (f *timersFam) finish(w *World, res *Result) {
 					tieOps, tieTimer = true, true
 				}
 				refreshPending++
+				if refreshPending > 1 {
+					concurrentRefresh = true
+				}
 				if cancelled || cancelPending > 0 {
 					refreshAfterCancel = true // not covered by the statement: stop judging this timer
 				}
@@ -259,6 +264,7 @@ func (f *timersFam) finish(w *World, res *Result) {
 		}
 		if refreshAfterCancel {
 			w.probe("refresh_after_cancel")
+			anyRefreshAfterCancel = true
 			continue
 		}
 		if cancelPending > 0 && f.done {
@@ -288,7 +294,7 @@ func (f *timersFam) finish(w *World, res *Result) {
 			}
 		}
 	}
-	if f.done {
+	if f.done && !anyRefreshAfterCancel { // reviving a cancelled timer is outside the statement, so is what it leaves behind
 		for _, a := range f.alive {
 			if strings.HasPrefix(a, "z-end") {
 				continue
@@ -302,10 +308,12 @@ func (f *timersFam) finish(w *World, res *Result) {
 				c = "caller-blocked"
 			} else if tieOps {
 				c += "/after-call-at-due-instant"
+			} else if concurrentRefresh {
+				c += "/after-concurrent-refresh"
 			}
 			l.add("no-goroutine-left-behind", c, fmt.Sprintf("task %s still alive one period after every timer was cancelled (%s)", a, site))
 		}
-	} else if res.Outcome != "fail" {
+	} else if !f.done && res.Outcome != "fail" {
 		l.add("cancel-returns", "run-stuck", fmt.Sprintf("the run did not reach its end (outcome %s): a timer call blocks forever; alive: %v", res.Outcome, res.Alive))
 	}
 	res.Viol = append(res.Viol, l.out...)
